@@ -220,6 +220,40 @@ def run_shard(spec):
                         k = dict(base)
                         k.update({"effect": "unexpected-files-opened"})
                         B.record(res, k, case, f"opened {opens} expected {expected_opens}")
+                    elif tree["hops"] >= 2 and rng.random() < 0.35:
+                        # history on the same document object: after a lookup, the entry's import is
+                        # re-pointed (path literal edited in place) to a later file of the chain; the
+                        # next lookup must read that file, and the text must show the new path
+                        try:
+                            doc = parse_file(sp)
+                            first = doc["next"]["id"]
+                            first = first.value if hasattr(first, "value") else first
+                            tset = doc._resolve_target_set()
+                            imp = next(b.value for b in tset.values if getattr(b, "name", None) == "next")
+                            while not hasattr(imp, "argument") and hasattr(imp, "value"):
+                                imp = imp.value
+                            j = rng.randrange(2, len(tree["files"]))
+                            new_rel = os.path.relpath(os.path.join(root, tree["files"][j][0]), entry_dir)
+                            if not new_rel.startswith("."):
+                                new_rel = "./" + new_rel
+                            arg = imp.argument
+                            while not hasattr(arg, "path") and hasattr(arg, "value"):
+                                arg = arg.value
+                            arg.path = new_rel
+                            B.bump(obs, "retarget_histories")
+                            got = doc["next"]["id"]
+                            got = got.value if hasattr(got, "value") else got
+                            if int(got) != tree["files"][j][1]:
+                                k = dict(base)
+                                k.update({"effect": "stale-target-after-path-edit"})
+                                B.record(res, k, case, f"import re-pointed to {new_rel}: got id {got}, "
+                                                       f"expected {tree['files'][j][1]} (first lookup {first})")
+                            elif new_rel not in doc.rebuild():
+                                k = dict(base)
+                                k.update({"effect": "text-does-not-show-edited-path"})
+                                B.record(res, k, case, doc.rebuild()[:300])
+                        except (AttributeError, StopIteration, TypeError):
+                            B.bump(obs, "retarget_not_applicable")
             os.chdir(start_cwd)
             # ---- error cases
             bad_dir = os.path.join(root, "errs")
